@@ -1099,6 +1099,15 @@ func (g *Gen) Poison() Fragment {
 						Text: fmt.Sprintf("extend type %s @go(type: \"Alt%d\") {\n}\ntype %s {\n}\n", o.Name, g.T.Draw(9), g.fresh("T"))}
 				}
 			}
+			if g.T.Bool(1, 8) {
+				// an interface the type implements already, named again by an extension
+				for _, o := range g.all("object") {
+					if g.St.ByName[o.Name] != nil && len(o.Interfaces) > 0 {
+						return Fragment{Kind: "poison:failed_extend:interface_implemented_already", Mutates: true,
+							Text: fmt.Sprintf("extend type %s implements %s {\n}\n", o.Name, o.Interfaces[0])}
+					}
+				}
+			}
 			switch g.T.Draw(8) {
 			case 7:
 				// an extension of a scalar that is not declared in SDL (built in, or
